@@ -158,6 +158,13 @@ func mutateValue(r *vlib.R, g *genType, a reflect.Value, maxLen int) reflect.Val
 			default:
 				fv.SetMapIndex(reflect.ValueOf(mapKey(r)), genScalar(r, t.Elem()))
 			}
+		case reflect.Struct:
+			if r.Chance(0.5) {
+				j := r.Intn(t.NumField())
+				fv.Field(j).Set(genFlatField(r, t.Field(j).Type))
+			} else {
+				fv.Set(genShapeValue(r, t, maxLen))
+			}
 		case reflect.Pointer:
 			if fv.IsNil() || r.Chance(0.4) {
 				fv.Set(genShapeValue(r, t, 8))
@@ -165,7 +172,15 @@ func mutateValue(r *vlib.R, g *genType, a reflect.Value, maxLen int) reflect.Val
 				fv.Set(reflect.Zero(t))
 			} else if t.Elem().Kind() == reflect.Struct {
 				j := r.Intn(t.Elem().NumField())
-				fv.Elem().Field(j).Set(genScalar(r, t.Elem().Field(j).Type))
+				fv.Elem().Field(j).Set(genFlatField(r, t.Elem().Field(j).Type))
+				if r.Chance(0.3) {
+					// every optional field of the struct goes away, the struct itself stays
+					for q := 0; q < t.Elem().NumField(); q++ {
+						if t.Elem().Field(q).Type.Kind() == reflect.Pointer {
+							fv.Elem().Field(q).Set(reflect.Zero(t.Elem().Field(q).Type))
+						}
+					}
+				}
 			} else {
 				fv.Elem().Set(genScalar(r, t.Elem()))
 			}
@@ -178,8 +193,8 @@ func mutateValue(r *vlib.R, g *genType, a reflect.Value, maxLen int) reflect.Val
 
 func runC10(tier string, _ []string) int {
 	c := vlib.NewCtx("C10", tier, "exploration")
-	c.SetRule("types: random configuration struct types built with reflect.StructOf (scalars of all 14 kinds, *scalar, *flat struct, []scalar, [N]scalar, map[string]scalar, flat struct; point/edgepoint tags; node id/parent; child slices up to 2 levels) plus one hand-written static type through the typed API; values: PRNG within documented limits (<=1000 elements, |int|<=2^53-1, non-empty map keys), hostile strings, floats by bit pattern (float64 NaN payloads, canonical float32 NaN). Case = Decode(Encode(a))==a then Merge(Decode(Encode(a)), Diff(a,b))==b for b random or a small edit of a (shrink/grow slice, remove/add map entry, pointer to nil and back). distinct = (set of field shapes present in the type, diff kind)")
-	c.Assume("equality: nil == empty for slices/maps; floats by bits for Encode/Decode, numerically (+0==-0, NaN==NaN) after Diff/Merge because a diff can only see == differences; times of generated points are not compared (Diff stamps time.Now)")
+	c.SetRule("types: random configuration struct types built with reflect.StructOf (scalars of all 14 kinds, *scalar, *flat struct, flat structs with optional (*scalar) fields, []scalar, [N]scalar, map[string]scalar, flat struct; point/edgepoint tags; node id/parent; child slices up to 2 levels) plus one hand-written static type through the typed API; values: PRNG within documented limits (<=1000 elements, |int|<=2^53-1, non-empty map keys), hostile strings, floats by bit pattern (float64 NaN payloads, canonical float32 NaN). Case = Decode(Encode(a))==a then Merge(Decode(Encode(a)), Diff(a,b))==b for b random or a small edit of a (shrink/grow slice, remove/add map entry, pointer to nil and back, optional fields inside a flat struct to nil while the struct stays); half of the cases continue as a chain of up to 3 further diffs merged into the same value. distinct = (set of field shapes present in the type, diff kind)")
+	c.Assume("equality: nil == empty for slices/maps; a pointer to a struct whose fields are all optional and nil == nil pointer (both are tombstone points only); floats by bits for Encode/Decode, numerically (+0==-0, NaN==NaN) after Diff/Merge because a diff can only see == differences; times of generated points are not compared (Diff stamps time.Now)")
 	c.Assume("a and b agree on edge-point fields, node id/parent and children: DiffPoints is documented to describe node points only")
 	nVals := c.N(100000, 1000000)
 	static := c10StaticGen()
@@ -344,6 +359,28 @@ func runC10(tier string, _ []string) int {
 			}
 			c.Distinct("dm " + kind + " " + shapes)
 			c.Count("diff_points", int64(len(pts)))
+			// chains: the merged value is the first value of the next pair (it carries whatever the
+			// earlier merges left behind: spare capacity, trimmed tails, re-created pointers)
+			prev := b
+			for step := 2; step <= 4 && r.Chance(0.5); step++ {
+				next := mutateValue(r, g, prev, maxLen)
+				c.Eval(1)
+				pts, err := data.DiffPoints(prev, next)
+				if err != nil {
+					c.Violate("config:diff-error", "DiffPoints failed inside limits: "+err.Error(), wit(map[string]any{"step": step, "from": showVal(prev), "to": showVal(next)}))
+					return
+				}
+				if err := data.MergePoints(id, pts, out); err != nil {
+					c.Violate("config:merge-error", "MergePoints(Diff(a,b)) failed: "+err.Error(), wit(map[string]any{"step": step, "from": showVal(prev), "to": showVal(next), "diff": witnessPoints(pts)}))
+					return
+				}
+				if d := eqValM(next, out, "", false); d != "" {
+					c.Violate("config:diffmerge-mismatch", fmt.Sprintf("step %d of a chain of diffs merged into one value: result != target at %s", step, d), wit(map[string]any{"step": step, "from": showVal(prev), "to": showVal(next), "got": showVal(out), "diff": witnessPoints(pts)}))
+					return
+				}
+				c.Count("chained_steps", 1)
+				prev = next
+			}
 			if i < 3 {
 				c.Sample(wit(map[string]any{"b": showVal(b), "diff": witnessPoints(pts)}))
 			}
